@@ -768,7 +768,7 @@ class Facts:
         recorded constant that is gone while exactly one new constant of the same module, type and value exists.  The facts
         are rewritten to the recorded names, so every rule keeps working."""
         p = os.path.join(V, "tables", "data_anchors.json")
-        if not os.path.exists(p):
+        if not os.path.exists(p) or os.environ.get("VERIF_NO_INLINE"):
             return {}
         with open(p) as f:
             anch = json.load(f)
